@@ -1374,9 +1374,145 @@ def layoutpipe_family(tier, seed):
                   "trace": traceback.format_exc()[-600:]})
 
 
+KIND_TEMPLATES = {
+    "dataclass": ("from dataclasses import dataclass, field\n", "@dataclass\nclass {name}:\n{body}", "{n}: {t}", "{n}: {t} = {d}",
+                  "{n}: {t} = field(default_factory={f})"),
+    "namedtuple": ("from typing import NamedTuple\n", "class {name}(NamedTuple):\n{body}", "{n}: {t}", "{n}: {t} = {d}", None),
+    "typeddict": ("from typing import TypedDict\n", "class {name}(TypedDict):\n{body}", "{n}: {t}", None, None),
+    "attrs": ("import attr\n", "@attr.define\nclass {name}:\n{body}", "{n}: {t}", "{n}: {t} = {d}", "{n}: {t} = attr.Factory({f})"),
+    "pydantic": ("from pydantic import BaseModel, Field\n", "class {name}(BaseModel):\n{body}", "{n}: {t}", "{n}: {t} = {d}",
+                 "{n}: {t} = Field(default_factory={f})"),
+}
+
+
+_KIND_COUNTER = [0]
+
+
+def build_kind_model(kind, name, spec, extra_ns=None):
+    """spec: list of (field name, type text, default: None | ('v', literal text) | ('f', factory name)); returns the class or None
+    when the kind cannot express the spec (no defaults in TypedDict, no factories in NamedTuple)"""
+    imports, cls_t, req_t, dv_t, df_t = KIND_TEMPLATES[kind]
+    lines = []
+    for n, t, d in spec:
+        if d is None:
+            lines.append("    " + req_t.format(n=n, t=t))
+        elif d[0] == "v":
+            if dv_t is None:
+                return None
+            lines.append("    " + dv_t.format(n=n, t=t, d=d[1]))
+        else:
+            if df_t is None:
+                return None
+            lines.append("    " + df_t.format(n=n, t=t, f=d[1]))
+    src = "from typing import Any, Dict, List, Optional\n" + imports + cls_t.format(name=name, body="\n".join(lines)) + "\n"
+    import types
+    _KIND_COUNTER[0] += 1
+    mod = types.ModuleType(f"kinds_family_{_KIND_COUNTER[0]}")
+    sys.modules[mod.__name__] = mod
+    mod.__dict__.update(extra_ns or {})
+    exec(src, mod.__dict__)      # class definition only
+    return mod.__dict__[name]
+
+
+def _describe_ns_shallow(ns):
+    out = {}
+    for k, v in ns.items():
+        if k.startswith("__"):
+            continue
+        d = describe(v)
+        q = getattr(v, "__qualname__", None)
+        if q:
+            d["qualname"] = q
+        out[k] = d
+    return out
+
+
+def kinds_family(tier, seed):
+    """the same logical model declared as dataclass / NamedTuple / TypedDict / attrs / pydantic: the whole compilation pipeline
+    is driven for each kind under the same name_mapping, the emitted loader/dumper sources are collected; converters between
+    kinds are compiled as well.  Nothing emitted is ever called."""
+    from adaptix import DebugTrail, NameStyle, Retort, name_mapping
+    from adaptix._internal.conversion.facade.retort import ConversionRetort
+    from adaptix._internal.morphing.model.basic_gen import CodeGenAccumulator
+
+    specs = {
+        "req2": [("a", "int", None), ("b_name", "str", None)],
+        "req_types": [("a", "int", None), ("s", "str", None), ("f", "float", None), ("flag", "bool", None), ("items", "List[int]", None),
+                      ("maybe", "Optional[int]", None)],
+        "defaults": [("a", "int", None), ("b", "str", ("v", "'x'")), ("c", "int", ("v", "7")), ("n", "Optional[int]", ("v", "None")),
+                     ("t", "bool", ("v", "True"))],
+        "factory": [("a", "int", None), ("items", "List[int]", ("f", "list")), ("d", "Dict[str, int]", ("f", "dict"))],
+        "snake": [("first_name", "str", None), ("last_name_", "str", None), ("age", "int", ("v", "0"))],
+        "single": [("value", "Any", None)],
+    }
+    nms = {
+        "plain": {},
+        "camel": {"name_style": NameStyle.CAMEL},
+        "as_list": {"as_list": True},
+        "map": {"map": {"a": "A", "first_name": ("n", "first")}},
+        "omit": {"omit_default": True},
+        "skip": {"skip": ["c", "age", "d"]},
+    }
+    kinds = list(KIND_TEMPLATES)
+    modes = [DebugTrail.ALL] if tier == "quick" else [DebugTrail.ALL, DebugTrail.FIRST, DebugTrail.DISABLE]
+    for sname, spec in specs.items():
+        for nname, nm in nms.items():
+            for mode in modes:
+                for kind in kinds:
+                    rec = {"kind": "kinds", "spec": sname, "fields": [[n, t, list(d) if d else None] for n, t, d in spec], "nm": nname,
+                           "model_kind": kind, "debug_trail": mode.name}
+                    try:
+                        M = build_kind_model(kind, "M", spec)
+                        if M is None:
+                            rec["inexpressible"] = True
+                            emit(rec)
+                            continue
+                        acc = CodeGenAccumulator()
+                        retort = Retort(recipe=[name_mapping(M, **nm), acc], debug_trail=mode)
+                        for what in ("loader", "dumper"):
+                            before = len(acc.list)
+                            try:
+                                getattr(retort, "get_" + what)(M)
+                                err = None
+                            except Exception as e:
+                                err = type(e).__name__
+                            progs = [(d.source, _describe_ns_shallow(d.namespace)) for r, d in acc.list[before:]
+                                     if getattr(r.last_loc.type, "__name__", "") == "M"]
+                            rec[what] = {"error": err, "source": progs[0][0] if progs else None, "namespace": progs[0][1] if progs else None,
+                                         "n_programs": len(progs)}
+                        emit(rec)
+                    except Exception as e:
+                        rec["harness_error"] = f"{type(e).__name__}: {e}"
+                        rec["trace"] = traceback.format_exc()[-600:]
+                        emit(rec)
+    # converters between kinds
+    for sname in ("req2", "req_types", "snake_req"):
+        spec = specs.get(sname) or [("first_name", "str", None), ("last_name_", "str", None)]
+        for ka in kinds:
+            for kb in kinds:
+                rec = {"kind": "kinds_conv", "spec": sname, "fields": [[n, t, None] for n, t, d in spec], "src_kind": ka, "dst_kind": kb}
+                try:
+                    A = build_kind_model(ka, "SrcM", spec)
+                    B = build_kind_model(kb, "DstM", spec)
+                    acc = CodeGenAccumulator()
+                    retort = ConversionRetort(recipe=[acc])
+                    try:
+                        retort.get_converter(A, B)
+                        err = None
+                    except Exception as e:
+                        err = type(e).__name__
+                    progs = [(d.source, _describe_ns_shallow(d.namespace)) for r, d in acc.list if "def coerce_" in d.source]
+                    rec.update({"error": err, "source": progs[0][0] if progs else None, "namespace": progs[0][1] if progs else None})
+                    emit(rec)
+                except Exception as e:
+                    rec["harness_error"] = f"{type(e).__name__}: {e}"
+                    rec["trace"] = traceback.format_exc()[-600:]
+                    emit(rec)
+
+
 FAMILIES = {"loader": loader_family, "dumper": dumper_family, "literal": literal_family, "hostile": hostile_family,
             "broach": broach_family, "converter": converter_family, "convpipe": convpipe_family,
-            "layoutpipe": layoutpipe_family}
+            "layoutpipe": layoutpipe_family, "kinds": kinds_family}
 
 
 def main():
